@@ -38,6 +38,7 @@ type FaultSpec struct {
 }
 
 type Step struct {
+	GiveUp bool `json:"give_up,omitempty"` // commit: a failed attempt is not retried; the history goes on with the leftovers pending
 	Op  string `json:"op"`
 	C   int    `json:"c,omitempty"`
 	CID int    `json:"cid,omitempty"` // id of a container created by this step
